@@ -530,6 +530,8 @@ def _scan_function(fn, qual, module_imports, module_objects, class_mutables, enc
                         hit("module-state-mutation", ".".join(d), n)
             elif d and len(d) >= 2 and d[0] in module_objects and d[0] not in loc and d[0] not in enclosing and d[-1] not in READONLY_METHODS:
                 hit("module-object-method-call", ".".join(d), n)               # a method of a module-level container / singleton: may store its arguments
+            elif d and len(d) == 1 and d[0] in module_objects and d[0] not in loc and d[0] not in enclosing:
+                hit("module-object-call", d[0], n)       # NAME = functools.lru_cache(...)(f) / NAME = memoize(f) / NAME = Class(): a callable object that may keep state
             if d and d[-1] in ("setattr", "delattr") and n.args:
                 r = _dotted(n.args[0])
                 if r is None or r[0] not in loc or r[0] == "cls":
